@@ -216,7 +216,22 @@ bool modelCall(State &S, const CallBase *CB, const std::string &name, std::vecto
     tighten(S, size);
     bool ok; std::string fmt = globalCString(S, arg(2), ok);
     std::vector<FmtAlt> alts; std::string why;
-    if (!ok || !expandFormat(S, CB, fmt, 3, alts, why)) {
+    bool expanded = ok && expandFormat(S, CB, fmt, 3, alts, why);
+    if (ok && !expanded && why == "WIDE") {
+      // snprintf never writes more than `size` bytes, but returns the untruncated (unbounded) length
+      Val sz = size; tighten(S, sz);
+      i128 shi = umax(sz), slo = umin(sz);
+      if (shi > 0) {
+        i128 n = std::min(shi, (i128)4096);
+        std::vector<ByteCell> cells((size_t)n);
+        for (auto &c : cells) { c.cs.set(); c.prov = P_SETTING; }
+        writeCells(S, dst, cells, 0, n, CB, "snprintf");
+        (void)slo;
+      }
+      finishCall(S, CB, Val::range(32, ConstantRange::getNonEmpty(APInt(32, 0), APInt(32, 0x7fffffff)), P_SETTING));
+      return true;
+    }
+    if (!ok || !expanded) {
       alarm(S, "MODEL", CB, "snprintf cannot be modelled: " + (ok ? why : std::string("format is not a constant string")));
       finishCall(S, CB, Val::top(32)); return true;
     }
@@ -496,7 +511,8 @@ static Val widenVal(const Val &o, const Val &n) {
       v.r = ConstantRange::getNonEmpty(lo, hi + 1);
       v.kb = rangeKB(v.r);
     }
-    if (o.hascs && n.hascs) { v.hascs = true; v.cs = o.cs | n.cs; }
+    // byte sets survive widening only when the value cannot leave [0,255] anyway (e.g. a zero-extended byte)
+    if (o.hascs && n.hascs && !v.r.isFullSet() && !v.r.isWrappedSet() && v.r.getUnsignedMax().ule(255)) { v.hascs = true; v.cs = o.cs | n.cs; for (unsigned b = 0; b < 256; b++) if (v.r.contains(APInt(v.w, b))) v.cs.set(b); }
     return v;
   }
   if (n.k == Val::PTR) {
@@ -891,6 +907,7 @@ struct Engine {
             // IDX obligation: index within the declared array (one-past allowed for address computation)
             if (idx.k == Val::INT) {
               tighten(S, idx);
+              if (getenv("XAI_TRACE_IDX")) errs() << "[idx] " << I->getFunction()->getName() << ":" << lineOf(I) << " idx=" << rangeStr(idx) << " n=" << at->getNumElements() << "\n";
               bool bad = idx.r.isFullSet() || idx.r.getSignedMin().isNegative() || idx.r.getSignedMax().ugt(at->getNumElements());
               if (bad && at->getNumElements() > 0) alarm(S, "IDX", I, "index " + rangeStr(idx) + " may leave the declared array of " + std::to_string(at->getNumElements()) + " elements");
               else S.nIdx++;
@@ -976,6 +993,8 @@ struct Engine {
         for (int r : old.allocas) S.regions[r].live = false, S.regions[r].d.reset();
         S.stack.pop_back();
         if (S.stack.empty()) { S.stack.push_back(Frame()); S.stack.back().regs[nullptr] = rv; S.aborted = false; done.push_back(std::move(S)); return; }
+        if (!CFG.wsetResetAfter.empty() && old.F->getName() == CFG.wsetResetAfter)
+          for (auto &R : S.regions) if (R.name == CFG.reportRegion && R.d) { R.w().wset.reset(); }
         finishCall(S, old.callsite, rv);
         continue;
       }
